@@ -47,6 +47,7 @@ def spaces(tier, variant, seed):
     for n in (3, 4, 5, 8, 13, 20, 40):
         for v in (al.ones(n), al.PAT(n)["dense"], 1 << (64 * n - 1), (1 << (64 * (n - 1))) + 1, al.ones(n) ^ al.ones(n // 2)):
             KP.append(v)
+    KP += [1 << (64 * j) for j in range(1, 13)] + [(1 << (64 * j)) - 1 for j in (5, 6, 9)] + [3 << (64 * j) for j in (5, 7)]      # exact powers of B (remainder B^j - 1 when the root is 1)
     KS = K2 + KP
     NS = list(range(1, 13)) + [63, 64, 65, 127, 128, 129, 1000]
     MAXBITS = 64 * (120 if quick else 400)
@@ -147,7 +148,24 @@ def spaces(tier, variant, seed):
         ot.run(ot.OPS["mpz_perfect_square_p"], (u,), R=R)
         return (al.sgn(u), bool(r[2]), min(abs(u), 70))
 
-    sp.append(Space("perfect_power_small", list(range(0, 1 << (16 if quick else 19), 4096)), pp_cases, pp_one, "mpz_perfect_power_p / perfect_square_p for every |u| below 2^16 (quick) / 2^19"))
+    sp.append(Space("perfect_power_small", list(range(0, 1 << (19 if quick else 22), 4096)), pp_cases, pp_one, "mpz_perfect_power_p / perfect_square_p for every |u| below 2^19 (quick) / 2^22"))
+
+    # every prime of the trial-division range (and just beyond it) as the base of a power, alone and with small cofactors
+    def pq_cases(blk):
+        lo = blk
+        for p in range(lo, lo + 64):
+            if p < 2 or any(p % q == 0 for q in range(2, int(p ** 0.5) + 1)):
+                continue
+            for e_ in (2, 3, 5, 7, 11):
+                for c in (1, 2, 3, 4, 12, 1009, 1013):
+                    for sgn_ in (1, -1):
+                        yield (sgn_ * (c * p) ** e_,)
+                        yield (sgn_ * c * p ** e_,)
+                yield (p ** e_ + 1,)
+                yield (-(p ** e_) * 2 ** e_,)
+
+    sp.append(Space("perfect_power_prime_bases", list(range(0, 1216, 64)), pq_cases, pp_one,
+                    "(c*p)^e, c*p^e, p^e+1 for EVERY prime p < 1216 (the trial-division table and just beyond), e in {2,3,5,7,11}, small cofactors c, both signs"))
 
     def pp2_cases(blk):
         a = blk
